@@ -41,8 +41,7 @@ def main(argv=None) -> int:
         ctx = report.Ctx(prop, args.tier, seed, repo)
         from . import selftest
 
-        mod.run(ctx)
-        refmodels.check(ctx)
+        report.run_rules(ctx, mod)
         if args.tier == "thorough" and hasattr(mod, "run_thorough"):
             mod.run_thorough(ctx)
         if not ctx.obligations:
